@@ -44,7 +44,7 @@ def gen(rng):
     addr = rng.choice([0x400ff0, 0x10, lo])
     for _ in range(rng.choice([4, 8, 16, 30])):
         r = rng.random()
-        nb = rng.randint(1, 7)
+        nb = rng.randint(1, 11)         # > 7 bytes: objdump adds a byte-continuation line (pseudo instruction in the parser)
         if r < 0.4:
             m = rng.choice(["call", "jmp", "call", "jmp", "callq", "jmpq", "je", "jne", "jb", "jg", "jz", "js"])
             t = max(0, rng.choice(edge))
